@@ -204,10 +204,20 @@ class InjectObserver(object):
         count = [0]
         depth = [0]
 
+        caif = ll.contexts_active_in_frame.__code__
+        referents = ll._contexts_active_by_referents.__code__
+        avail = ll._check_trickery_available.__code__
+
         def in_trickery(frame):
+            # the injected region: every stackscope function that runs on behalf of contexts_active_in_frame while the
+            # trickery mode is on, except the fallback analysis itself and the two dispatchers' own lines
+            if frame.f_code is caif or frame.f_code is avail:
+                return False
             f = frame
             while f is not None:
-                if f.f_code is trick:
+                if f.f_code is referents:
+                    return False
+                if f.f_code is trick or f.f_code is caif:
                     return True
                 f = f.f_back
             return False
